@@ -1,0 +1,412 @@
+//! Observation hooks for external conformance checking.
+//!
+//! Compiled only with `--cfg simplesl_verif`. Nothing here changes what the
+//! interpreter computes: every hook reports what the surrounding code has just
+//! done to a per-thread sink installed by a test harness. With no sink installed
+//! every hook is a cheap no-op.
+use crate::{
+    function::Function,
+    instruction::{ExecResult, ExecStop, Instruction},
+    interpreter::Interpreter,
+    variable::{Mut, ReturnType, Type, Variable},
+};
+use std::{
+    cell::{Cell, RefCell},
+    panic::{AssertUnwindSafe, catch_unwind},
+    sync::{
+        Arc,
+        atomic::{AtomicU64, Ordering},
+    },
+};
+
+/// One observed step of the abstract machine.
+#[derive(Clone)]
+pub enum Event {
+    /// An instruction finished with a value.
+    Ret {
+        kind: &'static str,
+        static_type: Option<Type>,
+        value: Variable,
+        depth: usize,
+    },
+    /// An instruction finished with a control signal.
+    Stop {
+        kind: &'static str,
+        signal: &'static str,
+        value: Option<Variable>,
+        depth: usize,
+    },
+    /// A function body is about to run. `args` are the values its parameter names resolve to
+    /// (`None` = the name does not resolve at all).
+    CallEnter {
+        function: usize,
+        ident: Option<Arc<str>>,
+        params: Vec<(Arc<str>, Type)>,
+        return_type: Type,
+        native: bool,
+        args: Vec<Option<Variable>>,
+        depth: usize,
+    },
+    /// A function body finished (`result == None` = it ended with a run-time error).
+    CallExit {
+        function: usize,
+        return_type: Type,
+        result: Option<Variable>,
+        error: Option<String>,
+        depth: usize,
+    },
+    /// A `mut` expression created a cell.
+    Alloc { cell: Arc<Mut>, value: Variable },
+    /// An assignment stored `new` (or failed and stored nothing) while holding the write lock.
+    Write {
+        cell: Arc<Mut>,
+        op: &'static str,
+        old: Variable,
+        rhs: Variable,
+        new: Option<Variable>,
+        seq: u64,
+    },
+}
+
+type Sink = Box<dyn FnMut(Event)>;
+
+thread_local! {
+    static SINK: RefCell<Option<Sink>> = const { RefCell::new(None) };
+    static ENABLED: Cell<bool> = const { Cell::new(false) };
+    static INSTRUCTIONS: Cell<bool> = const { Cell::new(false) };
+    static SKIP_NEXT: Cell<bool> = const { Cell::new(false) };
+    static SKIP_CALL: Cell<bool> = const { Cell::new(false) };
+    static FUEL: Cell<u64> = const { Cell::new(u64::MAX) };
+    static DEPTH: Cell<usize> = const { Cell::new(0) };
+    static MAX_DEPTH: Cell<usize> = const { Cell::new(usize::MAX) };
+    static CURRENT_OP: Cell<&'static str> = const { Cell::new("") };
+}
+
+static SEQ: AtomicU64 = AtomicU64::new(0);
+static PERTURB: std::sync::RwLock<Option<fn(&'static str)>> = std::sync::RwLock::new(None);
+
+/// Payload of the unwinding used to stop a run whose fuel or depth budget is exhausted.
+#[derive(Debug)]
+pub struct OutOfBudget(pub &'static str);
+
+/// Installs (or removes) this thread's sink. `instructions` selects whether per-instruction
+/// `Ret`/`Stop` events are wanted in addition to the observable ones.
+pub fn set_sink(sink: Option<Sink>, instructions: bool) {
+    let enabled = sink.is_some();
+    SINK.with(|s| *s.borrow_mut() = sink);
+    ENABLED.with(|e| e.set(enabled));
+    INSTRUCTIONS.with(|e| e.set(enabled && instructions));
+    SKIP_NEXT.with(|e| e.set(false));
+    SKIP_CALL.with(|e| e.set(false));
+    DEPTH.with(|d| d.set(0));
+}
+
+/// Budget for loop iterations plus function entries on this thread (`u64::MAX` = unlimited),
+/// and a bound on the nesting of function calls.
+pub fn set_budget(fuel: u64, max_depth: usize) {
+    FUEL.with(|f| f.set(fuel));
+    MAX_DEPTH.with(|d| d.set(max_depth));
+    DEPTH.with(|d| d.set(0));
+}
+
+/// Installs a process-wide schedule perturbation callback invoked at lock-related points.
+pub fn set_perturb(f: Option<fn(&'static str)>) {
+    *PERTURB.write().unwrap() = f;
+}
+
+pub fn next_seq() -> u64 {
+    SEQ.fetch_add(1, Ordering::SeqCst)
+}
+
+fn emit(event: Event) {
+    if !ENABLED.with(Cell::get) {
+        return;
+    }
+    // The sink is taken out while it runs so that a sink which (indirectly) triggers another
+    // hook cannot observe a double borrow.
+    let sink = SINK.with(|s| s.borrow_mut().take());
+    if let Some(mut sink) = sink {
+        sink(event);
+        SINK.with(|s| {
+            let mut slot = s.borrow_mut();
+            if slot.is_none() {
+                *slot = Some(sink);
+            }
+        });
+    }
+}
+
+pub(crate) fn perturb(point: &'static str) {
+    let f = *PERTURB.read().unwrap();
+    if let Some(f) = f {
+        f(point);
+    }
+}
+
+pub(crate) fn burn(what: &'static str) {
+    FUEL.with(|f| {
+        let left = f.get();
+        if left == u64::MAX {
+            return;
+        }
+        if left == 0 {
+            std::panic::panic_any(OutOfBudget(what));
+        }
+        f.set(left - 1);
+    });
+}
+
+fn kind_of(instruction: &Instruction) -> &'static str {
+    match instruction {
+        Instruction::AnonymousFunction(_) => "AnonymousFunction",
+        Instruction::Array(_) => "Array",
+        Instruction::ArrayRepeat(_) => "ArrayRepeat",
+        Instruction::Block(_) => "Block",
+        Instruction::Break => "Break",
+        Instruction::Continue => "Continue",
+        Instruction::DestructTuple(_) => "DestructTuple",
+        Instruction::FieldAccess(_) => "FieldAccess",
+        Instruction::FunctionDeclaration(_) => "FunctionDeclaration",
+        Instruction::IfElse(_) => "IfElse",
+        Instruction::LocalVariable(..) => "LocalVariable",
+        Instruction::Loop(_) => "Loop",
+        Instruction::Match(_) => "Match",
+        Instruction::Mut(_) => "Mut",
+        Instruction::Reduce(_) => "Reduce",
+        Instruction::Set(_) => "Set",
+        Instruction::SetIfElse(_) => "SetIfElse",
+        Instruction::Slicing(_) => "Slicing",
+        Instruction::Struct(_) => "Struct",
+        Instruction::Tuple(_) => "Tuple",
+        Instruction::TupleAccess(_) => "TupleAccess",
+        Instruction::TypeFilter(_) => "TypeFilter",
+        Instruction::Variable(_) => "Variable",
+        Instruction::BinOperation(op) => bin_kind(op.op),
+        Instruction::UnaryOperation(op) => unary_kind(op.op),
+    }
+}
+
+fn bin_kind(op: crate::BinOperator) -> &'static str {
+    use crate::BinOperator::*;
+    match op {
+        Add => "Bin+",
+        Subtract => "Bin-",
+        Multiply => "Bin*",
+        Divide => "Bin/",
+        Modulo => "Bin%",
+        Pow => "Bin**",
+        Equal => "Bin==",
+        NotEqual => "Bin!=",
+        Greater => "Bin>",
+        GreaterOrEqual => "Bin>=",
+        Lower => "Bin<",
+        LowerOrEqual => "Bin<=",
+        And => "Bin&&",
+        Or => "Bin||",
+        BitwiseAnd => "Bin&",
+        BitwiseOr => "Bin|",
+        Xor => "Bin^",
+        LShift => "Bin<<",
+        RShift => "Bin>>",
+        Filter => "Filter",
+        Map => "Map",
+        At => "At",
+        FunctionCall => "FunctionCall",
+        Assign => "Asg=",
+        AssignAdd => "Asg+=",
+        AssignSubtract => "Asg-=",
+        AssignMultiply => "Asg*=",
+        AssignDivide => "Asg/=",
+        AssignModulo => "Asg%=",
+        AssignLShift => "Asg<<=",
+        AssignRShift => "Asg>>=",
+        AssignBitwiseAnd => "Asg&=",
+        AssignBitwiseOr => "Asg|=",
+        AssignXor => "Asg^=",
+        AssignPow => "Asg**=",
+        Partition => "Partition",
+    }
+}
+
+fn unary_kind(op: crate::unary_operator::UnaryOperator) -> &'static str {
+    use crate::unary_operator::UnaryOperator::*;
+    match op {
+        All => "All",
+        Any => "Any",
+        BitAnd => "BitAnd",
+        BitOr => "BitOr",
+        Sum => "Sum",
+        Product => "Product",
+        Not => "Not",
+        UnaryMinus => "UnaryMinus",
+        Return => "Return",
+        Indirection => "Indirection",
+        FunctionCall => "HostCall",
+        Collect => "Collect",
+        Iter => "Iter",
+    }
+}
+
+/// Called at the top of `Instruction::exec`. Returns `Some(result)` when it ran the instruction
+/// itself (by re-entering `exec` once in pass-through mode) and reported the outcome.
+pub(crate) fn hook_exec(instruction: &Instruction, interpreter: &mut Interpreter) -> Option<ExecResult> {
+    if !ENABLED.with(Cell::get) {
+        return None;
+    }
+    if SKIP_NEXT.with(Cell::get) {
+        SKIP_NEXT.with(|s| s.set(false));
+        return None;
+    }
+    SKIP_NEXT.with(|s| s.set(true));
+    let result = crate::instruction::Exec::exec(instruction, interpreter);
+    SKIP_NEXT.with(|s| s.set(false));
+    let kind = kind_of(instruction);
+    let depth = DEPTH.with(Cell::get);
+    if let (Instruction::Mut(_), Ok(Variable::Mut(cell))) = (instruction, &result) {
+        let value = cell.variable.read().unwrap().clone();
+        emit(Event::Alloc {
+            cell: cell.clone(),
+            value,
+        });
+    }
+    if !INSTRUCTIONS.with(Cell::get) {
+        return Some(result);
+    }
+    match &result {
+        Ok(value) => {
+            let static_type = catch_unwind(AssertUnwindSafe(|| instruction.return_type())).ok();
+            emit(Event::Ret {
+                kind,
+                static_type,
+                value: value.clone(),
+                depth,
+            });
+        }
+        Err(stop) => {
+            let (signal, value) = match stop {
+                ExecStop::Break => ("break", None),
+                ExecStop::Continue => ("continue", None),
+                ExecStop::Return(value) => ("return", Some(value.clone())),
+                ExecStop::Error(_) => ("error", None),
+            };
+            emit(Event::Stop {
+                kind,
+                signal,
+                value,
+                depth,
+            });
+        }
+    }
+    Some(result)
+}
+
+pub(crate) fn loop_tick() {
+    burn("loop");
+}
+
+/// Called at the top of `Function::exec`; same pass-through scheme as `hook_exec`.
+pub(crate) fn hook_call(
+    function: &Function,
+    interpreter: &mut Interpreter,
+) -> Option<Result<Variable, crate::ExecError>> {
+    if SKIP_CALL.with(Cell::get) {
+        SKIP_CALL.with(|s| s.set(false));
+        return None;
+    }
+    burn("call");
+    if !ENABLED.with(Cell::get) && MAX_DEPTH.with(Cell::get) == usize::MAX {
+        return None;
+    }
+    let depth = DEPTH.with(Cell::get) + 1;
+    if depth > MAX_DEPTH.with(Cell::get) {
+        std::panic::panic_any(OutOfBudget("depth"));
+    }
+    let id = function as *const Function as usize;
+    emit(Event::CallEnter {
+        function: id,
+        ident: function.ident.clone(),
+        params: function
+            .params
+            .iter()
+            .map(|param| (param.name.clone(), param.var_type.clone()))
+            .collect(),
+        return_type: function.return_type.clone(),
+        native: matches!(function.body, crate::function::Body::Native(_)),
+        args: function
+            .params
+            .iter()
+            .map(|param| interpreter.get_variable(&param.name).cloned())
+            .collect(),
+        depth,
+    });
+    struct Restore(usize);
+    impl Drop for Restore {
+        fn drop(&mut self) {
+            DEPTH.with(|d| d.set(self.0));
+        }
+    }
+    let restore = Restore(depth - 1);
+    DEPTH.with(|d| d.set(depth));
+    SKIP_CALL.with(|s| s.set(true));
+    let result = function.exec(interpreter);
+    SKIP_CALL.with(|s| s.set(false));
+    drop(restore);
+    emit(Event::CallExit {
+        function: id,
+        return_type: function.return_type.clone(),
+        result: result.as_ref().ok().cloned(),
+        error: result.as_ref().err().map(ToString::to_string),
+        depth,
+    });
+    Some(result)
+}
+
+pub(crate) fn set_op(op: crate::BinOperator) {
+    let name = match bin_kind(op).strip_prefix("Asg") {
+        Some(name) => name,
+        None => "",
+    };
+    CURRENT_OP.with(|c| c.set(name));
+}
+
+/// Created under the write lock before the store; reports when dropped (still under the lock).
+pub(crate) struct WriteGuard {
+    cell: Arc<Mut>,
+    op: &'static str,
+    old: Variable,
+    rhs: Variable,
+    new: Option<Variable>,
+    seq: u64,
+}
+
+pub(crate) fn pre_write(cell: &Arc<Mut>, old: &Variable, rhs: &Variable) -> WriteGuard {
+    perturb("write-locked");
+    WriteGuard {
+        cell: cell.clone(),
+        op: CURRENT_OP.with(Cell::get),
+        old: old.clone(),
+        rhs: rhs.clone(),
+        new: None,
+        seq: next_seq(),
+    }
+}
+
+impl WriteGuard {
+    pub(crate) fn stored(&mut self, new: &Variable) {
+        self.new = Some(new.clone());
+    }
+}
+
+impl Drop for WriteGuard {
+    fn drop(&mut self) {
+        emit(Event::Write {
+            cell: self.cell.clone(),
+            op: self.op,
+            old: self.old.clone(),
+            rhs: self.rhs.clone(),
+            new: self.new.take(),
+            seq: self.seq,
+        });
+    }
+}
+
